@@ -115,10 +115,31 @@ func runC14(c *Ctx) {
 
 	// ---- who may call Deal / Burn
 	initRound := p.Func("pokerface", ea.gameImpl, "InitializeRound")
+	// package-private helpers called only from the street initialiser are part of it
+	partOfInit := map[*ssa.Function]bool{initRound: true}
+	for changed := true; changed; {
+		changed = false
+		for _, fn := range p.MethodsOf("pokerface", ea.gameImpl) {
+			if partOfInit[fn] || !privateHelper(initRound, fn) {
+				continue
+			}
+			cs := ix.Callers(fn)
+			all := len(cs) > 0
+			for _, cl := range cs {
+				if !partOfInit[cl] {
+					all = false
+				}
+			}
+			if all {
+				partOfInit[fn] = true
+				changed = true
+			}
+		}
+	}
 	for _, f := range []*ssa.Function{deal, burn} {
 		var bad []string
 		for _, cl := range ix.Callers(f) {
-			if cl != initRound && !(f == deal && cl == burn) {
+			if !partOfInit[cl] && !(f == deal && cl == burn) {
 				bad = append(bad, fnKey(cl))
 			}
 		}
@@ -217,8 +238,10 @@ func runC14(c *Ctx) {
 		c.undecided("street-table", "InitializeRound", "-", "not found")
 	} else {
 		c.touch(fnKey(initRound))
-		s := newSumm(p, 1)
+		s := newSumm(p, 3)
 		s.NoInline[fnKey(deal)] = true
+		s.InlineFilter = func(f *ssa.Function) bool { return f == burn || partOfInit[f] }
+		s.HelperInline = func(f *ssa.Function) bool { return partOfInit[f] && f != initRound }
 		paths, cut := s.Function(initRound)
 		if cut != "" {
 			c.undecided("street-table", fnKey(initRound), p.FnPos(initRound), "summary cut: "+cut)
@@ -260,7 +283,7 @@ func runC14(c *Ctx) {
 					if !loadsField(ri.Coll, "pokerface.GameState.Players") || !ri.Full || len(e.Loop.Exits) != 1 {
 						continue
 					}
-					body, _ := s.LoopBody(initRound, e.Loop)
+					body, _ := s.LoopBody(e.InFn, e.Loop)
 					okLoop = len(body) > 0
 					for _, bp := range body {
 						hs := bp.storesTo("pokerface.PlayerState.HoleCards")
@@ -300,7 +323,7 @@ func runC14(c *Ctx) {
 						for blk := range e.Loop.Blocks {
 							for _, in := range blk.Instrs {
 								if ci, ok := in.(ssa.CallInstruction); ok {
-									for _, t := range ix.targets(initRound, ci.Common()) {
+									for _, t := range ix.targets(e.InFn, ci.Common()) {
 										if t == deal || t == burn {
 											bad = append(bad, "cards are dealt in a loop on a later street")
 										}
